@@ -73,7 +73,7 @@ func vC09Run(tr *vTrace, id string, c vC09Cfg, salt int64) {
 				go func(g int) {
 					defer wg2.Done()
 					r := rand.New(rand.NewSource(salt*77 + int64(rep*1000+g)))
-					for i := 0; i < 400; i++ {
+					for i := 0; i < 60; i++ {
 						st.Get(5000000 + r.Intn(4*c.cap))
 					}
 				}(g)
@@ -86,6 +86,17 @@ func vC09Run(tr *vTrace, id string, c vC09Cfg, salt int64) {
 		wg.Wait()
 		st.Wait()
 	}
+	full, away := 0, 0
+	for i := range st.stripedBuffer {
+		b := st.stripedBuffer[i]
+		if b.tail.Load()-b.head.Load() >= uint64(capacity) {
+			full++
+		}
+		if atomic.LoadPointer(&b.returned) == nil {
+			away++
+		}
+	}
+	defer func() { tr.Emit(vRec{"ev": "stripes", "id": id, "full": full, "token_away": away, "capW": int(st.policy.window.capacity)}) }()
 	tr.Emit(vRec{"ev": "reset", "id": id, "cap": c.cap, "kind": c.kind, "mixed": vb(c.mixed), "warm": vb(c.warm), "loading": vb(c.loading)})
 	hot := c.cap / c.hotFrac
 	if c.mixed {
@@ -162,6 +173,11 @@ func TestVerif_C09Quality(t *testing.T) {
 			}
 			if c.reqs > 30000 {
 				c.reqs = 30000
+			}
+			if c.warm && c.reqs < 20000 {
+				// the concurrent phase leaves the adaptive window wherever the hill climber took it; it moves
+				// back by a few percent of the capacity per sample period
+				c.reqs = 20000
 			}
 			vC09Run(tr, fmt.Sprintf("hot_c%d_v%d", cap, v), c, int64(cap*10+v))
 			c.kind = "zipf"
